@@ -35,6 +35,26 @@ def r1_r4_score_table(ctx, sym, model):
                 continue
             if got['score'] != want['score']:
                 bad.append((cfg, sup, got['score'], want['score'], got['scores']))
+    # every way of suppressing the scored feedback (and combinations with unrelated entries of the same category)
+    sup_variants = [
+        ({'specification': {'s': [{}]}}, {}),                                   # category + label
+        ({}, {'S': [{}]}),                                                      # label only
+        ({'specification': {'other': [{}]}}, {'S': [{}]}),                      # label only, category has other entries
+        ({'specification': {'s': [{'k': 'no-match'}]}}, {'S': [{}]}),           # label only, category entry not matching
+        ({'specification': {'other': [{}]}}, {}),                               # unrelated entry only: not suppressed
+        ({}, {'S': [{'k': 'no-match'}]}),                                       # label only, fields not matching
+        ({}, {'S': [{'k': 1}]}),                                                # label + matching fields
+    ]
+    for val, trig, sc in itertools.product((-1, 1, None), (True, False), ('+5', 0.25, '10%')):
+        cfg = dict(category='specification', label='S', triggered=trig, valence=val, score=sc, fields={'k': 1})
+        for s_, sl_ in sup_variants:
+            n += 1
+            seq = [anchor, cfg]
+            got, want = model.resolve(seq, s_, sl_), model.oracle(seq, s_, sl_)
+            if isinstance(got, tuple):
+                raised.append((cfg, got))
+            elif got['score'] != want['score']:
+                bad.append((cfg, (s_, sl_), got['score'], want['score'], got['scores']))
     # default-correct result scores 1
     for cfg in (dict(category='specification', label='S', triggered=False, valence=-1, score='+5'),
                 dict(category='instructor', label='P', triggered=True, valence=1, score='+5', muted=True)):
